@@ -69,7 +69,17 @@ theorem union_no_hidden (db : DB) (i : NodeId) (c r : Ast) (d : Bool) (row : Row
     exact hall row (by simpa [projTo] using h)
   · simp only [↓reduceIte] at h
     rw [List.mem_eraseDups] at h
-    exact hall row (by simpa [projTo] using h)
+    -- the numeric normalisation changes values, not identities
+    unfold normNumCols at h
+    obtain ⟨r0, hr0, rfl⟩ := List.mem_map.1 h
+    have := hall r0 hr0
+    rw [← this, List.map_map]
+    apply List.map_congr_left
+    intro e _
+    simp only [Function.comp_apply, normVal]
+    split
+    · split <;> rfl
+    · rfl
 
 /-! ### distinct -/
 
@@ -89,12 +99,36 @@ decreasing_by
     are compared as values (`Val.null = Val.null`) -/
 theorem union_distinct_rows (db : DB) (i : NodeId) (c r : Ast) :
     (run db (.union i c r true)).rows.Nodup ∧
-    ∀ row, row ∈ (run db (.union i c r true)).rows ↔ row ∈ (run db (.union i c r false)).rows := by
+    ∀ row, row ∈ (run db (.union i c r true)).rows ↔ row ∈ normNumCols (run db (.union i c r false)).rows := by
   simp only [run, ↓reduceIte, Bool.false_eq_true]
   exact ⟨eraseDups_nodup _, fun row => List.mem_eraseDups⟩
 
-example : [[(1, Val.null), (2, .int 1)], [(1, .null), (2, .int 1)], [(1, .int 0), (2, .null)]].eraseDups =
-    [[(1, Val.null), (2, .int 1)], [(1, .int 0), (2, .null)]] := by decide +kernel
+/-- the normalisation only touches integers in columns that hold a float: without floats it is the identity -/
+theorem normVal_fst (fc : List Uid) (e : Uid × Val) : (normVal fc e).1 = e.1 := by
+  unfold normVal
+  split
+  · split <;> rfl
+  · rfl
+
+theorem normNumCols_no_float (rows : List Row) (h : ∀ r ∈ rows, ∀ e ∈ r, ∀ b, e.2 ≠ .flt b) : normNumCols rows = rows := by
+  have hf : floatCols rows = [] := by
+    unfold floatCols
+    have : rows.flatMap (fun r => r.filterMap floatKey) = [] := by
+      rw [List.flatMap_eq_nil_iff]
+      intro r hr
+      rw [List.filterMap_eq_nil_iff]
+      intro e he
+      unfold floatKey
+      cases hv : e.2 with
+      | flt b => exact absurd hv (h r hr e he b)
+      | _ => rfl
+    rw [this]; rfl
+  unfold normNumCols
+  rw [hf]
+  refine (List.map_congr_left (fun r _ => ?_)).trans (List.map_id rows)
+  refine (List.map_congr_left (fun e _ => ?_)).trans (List.map_id r)
+  simp only [id, normVal, List.contains_nil, Bool.false_eq_true, ↓reduceIte]
+  split <;> rfl
 
 /-! ### refusals (model of `_union_impl`) -/
 
